@@ -40,6 +40,7 @@ LEVEL = "model_checking"
 # inherited queue, reachable only with a half-linked inherited queue (informational scenario fork_bp_enq, DESIGN observation O3)
 LABELS_NOT_REACHED_IN_GOLDEN = ["fs_e2", "fs_lt"]
 W = 4
+from props import wq_parts
 ASSUMPTIONS = [
     "serialised execution of the real code: scheduling points are the hooked shared accesses, fences and blocking calls; fork() is a real fork() from a model thread: "
     "the child keeps only the caller, mutexes owned by other threads stay owned, store buffers of other threads are lost",
@@ -425,9 +426,15 @@ def run(ctx):
         oracle_only(ctx, wd, 10 if q else 150)
         informational(ctx, wd, 30 if q else 300)
     shutil.rmtree(wd, ignore_errors=True)
+    # the work queue's pause / resume handshake with queued and flushed work at full granularity (spec/Workqueue.tla <-> real src/workqueue.c)
+    if len(ctx.violations) < conc.MAXV:
+        ctx.assumptions += [a for a in wq_parts.ASSUMPTIONS if a not in ctx.assumptions]
+        wq_parts.run_c16(ctx)
 
 
 def replay(ctx, path):
+    if wq_parts.is_mine(path):
+        return wq_parts.replay_c16(ctx, path)
     meta = json.load(open(os.path.join(path, "meta.json")))
     sc = load_scenario(meta["scenario"])
     if meta.get("kind") == "tlc":
